@@ -3,7 +3,7 @@ import hashlib, os, shutil
 from .. import bb, chain as K, gen_chain as GC, common as C
 
 NAMESPACE = "Rbp.Props.C13"
-REQUIRED = ["parcollect_any_schedule", "model_is_function", "row_sets_depend_on_content_only"]
+REQUIRED = ["parcollect_any_schedule", "model_is_function", "row_sets_depend_on_content_only", "block_evaluation_schedule_independent"]
 LEAN_FILES = ["Rbp/Model/Par.lean", "Rbp/Model/Run.lean"]
 RULE = ("black-box: one data directory (blocks with up to hundreds of txs x up to 200 outputs, so rayon really splits the work; among them transactions of > 16 KiB and > 64 KiB) run repeatedly with RAYON_NUM_THREADS in {1,2,3,8,16,64}, also pinned to one CPU (taskset) for contention; "
         "csvdump files / opreturn lines / simplestats report must be byte-identical across runs, unspent and balances rows identical as sets, and equal to the model's; sequences of runs sharing one dump folder pre-seeded with stale *.tmp files and older results; "
